@@ -2,7 +2,7 @@
    `exact <lemma>`; Print Assumptions under each. *)
 From Coq Require Import ZArith List Bool PrimFloat.
 Import ListNotations.
-Require Import PyBase Solver SolverFacts SolverF SolverExamples.
+Require Import PyBase Solver SolverFacts SolverF SolverExamples SolverDefaults SolverFacts8.
 Require Import SolveAll SolveAllFacts SolveAllSpan SolveAllSpanFacts SolveAllSpanFacts2 SolveAllPeriod SolveAllPeriodFacts
                SolveAllF SolveAllExamples SolveAllSpanExamples SolveAllExamples3.
 Open Scope Z_scope.
@@ -128,7 +128,72 @@ Section C02.
       (mkState v1 (upd p Failed (status s)) (upd p (max_iter o) (iters s)) (log s ++ [EvBefore t]),
        if fail_raise o then Raise NonConvergenceError else Ret false).
   Proof. exact (solve_t_maxiter0 num sub absf ltb isfin zero ev before after d o t s p v1). Qed.
+  (* the F branch with the iteration count spelled out: no pass in [max(1,min_iter), max_iter] converged -> 'F',
+     iterations[t] = max_iter, exactly max_iter passes and no post-hook, False / NonConvergenceError *)
+  Theorem C02_fails_when_no_k_full d o t s p v1 :
+    min_iter o <= max_iter o -> 0 <= max_iter o -> length (iters s) = length (status s) ->
+    py_pos (length (status s)) t = Some p -> feasible d (length (status s)) p = true -> offset o = 0 ->
+    let c0 := get_check num zero d (vals_of s) p in
+    let N := Z.to_nat (max_iter o) in
+    before t (errors o) (catch_first o) 0%nat (vals_of s) = (v1, None) ->
+    (forall i, (1 <= i <= N)%nat -> snd (evk num ev o t i (st_after num ev o t v1 (i - 1))) = None) ->
+    (forall i, (i <= N)%nat -> all_finite num isfin (chkseq num zero ev d o t p c0 v1 i) = true) ->
+    (forall j, (1 <= j <= N)%nat -> convk num sub absf ltb zero ev d o t p c0 v1 j = false) ->
+    let r := solve_t_M d o t s in
+    snd r = (if fail_raise o then Raise NonConvergenceError else Ret false) /\
+    nth_error (status (fst r)) p = Some Failed /\
+    nth_error (iters (fst r)) p = Some (max_iter o) /\
+    log (fst r) = log s ++ [EvBefore t] ++ pass_events t 1 N.
+  Proof. exact (solve_t_fails_when_no_k_full num sub absf ltb isfin zero ev before after d o t s p v1). Qed.
+
+  (* a NEGATIVE max_iter (min_iter <= max_iter < 0 is accepted): no pass, 'F' — and iterations[t] = 0, not max_iter.  The F-branch
+     theorems therefore carry the guard 0 <= max_iter; see C02_failed_iterations_eq_max_iter_refuted *)
+  Theorem C02_negative_max_iter d o t s p v1 :
+    min_iter o <= max_iter o -> max_iter o < 0 ->
+    py_pos (length (status s)) t = Some p -> feasible d (length (status s)) p = true -> offset o = 0 ->
+    is_raise (errors o) && negb (all_finite num isfin (get_check num zero d (vals_of s) p)) = false ->
+    before t (errors o) (catch_first o) 0%nat (vals_of s) = (v1, None) ->
+    solve_t_M d o t s =
+      (mkState v1 (upd p Failed (status s)) (upd p 0 (iters s)) (log s ++ [EvBefore t]),
+       if fail_raise o then Raise NonConvergenceError else Ret false).
+  Proof. exact (solve_t_negative_max_iter num sub absf ltb isfin zero ev before after d o t s p v1). Qed.
 End C02.
+
+(* "iterations[t] = max_iter on failure" read literally is REFUTED for a negative max_iter (min_iter = max_iter = -2 records 0);
+   the statement's range "k <= max_iter" is empty there.  Not reported as a finding: stated in ASSUMPTIONS (max_iter >= 0). *)
+Theorem C02_failed_iterations_eq_max_iter_refuted :
+  exists sc d (o : fopts) t (s : fstate) p,
+    min_iter o <= max_iter o /\ py_pos (length (status s)) t = Some p /\
+    nth_error (status (fst (f_solve_t sc d o t s))) p = Some Failed /\
+    nth_error (iters (fst (f_solve_t sc d o t s))) p <> Some (max_iter o) /\
+    nth_error (iters (fst (f_solve_t sc d o t s))) p = Some 0.
+Proof. exact failed_iterations_eq_max_iter_refuted. Qed.
+
+(* ---- keyword defaults: the option records the correspondence uses for every keyword a call OMITS are built from the regenerated
+   signature constants, and they are the documented defaults (min_iter=0, max_iter=100, tol=1e-10, offset=0, failures='raise',
+   errors='raise', catch_first_error=True) for solve_t, solve and solve_period alike ---- *)
+Theorem C02_solver_defaults_documented :
+  dflt_solve_t = mkOpts 0 100 0x1.b7cdfd9d7bdbbp-34%float 0 true ERaise true /\
+  dflt_solve = mkOpts 0 100 0x1.b7cdfd9d7bdbbp-34%float 0 true ERaise true /\
+  dflt_solve_period = mkOpts 0 100 0x1.b7cdfd9d7bdbbp-34%float 0 true ERaise true.
+Proof. exact solver_defaults_documented. Qed.
+
+(* ---- binary64: what the abstract `sub`, `absf`, `ltb` of the theorems above are for NumPy float64 (the instantiation K runs).
+   The convergence test over the check variables holds iff EVERY variable satisfies  abs(current - previous) < tol  with the kernel's
+   IEEE subtraction, absolute value and STRICT less-than; instances at the boundary: a move of exactly tol does not converge, one ulp
+   less does, one ulp more does not, the sign of the move is irrelevant, a NaN move never converges, tol = 0 never converges ---- *)
+Theorem C02_float_conv_all_strict_abs tl cur prev : length cur = length prev ->
+  conv float PrimFloat.sub PrimFloat.abs PrimFloat.ltb tl cur prev = true <->
+  (forall i c p, nth_error cur i = Some c -> nth_error prev i = Some p ->
+                 PrimFloat.ltb (PrimFloat.abs (PrimFloat.sub c p)) tl = true).
+Proof. exact (float_conv_all_strict_abs tl cur prev). Qed.
+Theorem C02_float_conv_boundaries :
+  let tl := 0x1.b7cdfd9d7bdbbp-34%float in
+  fmoved_lt tl tl 0 = false /\ fmoved_lt tl 0x1.b7cdfd9d7bdbap-34 0 = true /\ fmoved_lt tl 0x1.b7cdfd9d7bdbcp-34 0 = false /\
+  fmoved_lt tl 0 tl = false /\ fmoved_lt tl 0 0x1.b7cdfd9d7bdbap-34 = true /\ fmoved_lt tl (-0x1.b7cdfd9d7bdbap-34) 0 = true /\
+  fmoved_lt tl 1 1 = true /\ fmoved_lt tl nan 0 = false /\ fmoved_lt tl infinity infinity = false /\
+  fmoved_lt 0 1 1 = false.
+Proof. exact float_conv_boundaries. Qed.
 
 (* ---- solve_period: label -> position -> solve_t, end to end.  The lookup is the model of VectorContainer._locate_period_in_span
    over the regenerated method list: list / tuple / range (.index), NumPy array (fallback), pandas Index (get_loc), and a
@@ -203,6 +268,12 @@ Print Assumptions C02_converges_at_least_k.
 Print Assumptions C02_fails_when_no_k.
 Print Assumptions C02_finite_spec.
 Print Assumptions C02_maxiter0.
+Print Assumptions C02_fails_when_no_k_full.
+Print Assumptions C02_negative_max_iter.
+Print Assumptions C02_failed_iterations_eq_max_iter_refuted.
+Print Assumptions C02_solver_defaults_documented.
+Print Assumptions C02_float_conv_all_strict_abs.
+Print Assumptions C02_float_conv_boundaries.
 Print Assumptions C02_solve_period_eq_solve_t.
 Print Assumptions C02_solve_period_eq_solve_t_period_index.
 Print Assumptions C02_solve_period_unknown_label.
